@@ -51,7 +51,7 @@ num_el["mixc"] = st.one_of(st.integers(-4, 6), V.small_floats, V.complexes)
 
 @st.composite
 def operand_case(draw, tier="quick"):
-    fam = draw(st.sampled_from(["num", "num", "num", "str", "strint", "date_date", "date_td", "date_int", "exact", "bytes", "datetime_td"]))
+    fam = draw(st.sampled_from(["num", "num", "num", "str", "strint", "date_date", "date_td", "date_int", "exact", "bytes", "datetime_td", "strfmt"]))
     big = draw(st.integers(0, 14 if tier == "thorough" else 29)) == 0
     # mostly short; now and then just past the sizes at which implementations like to switch strategy (64 / 65, 50..200)
     n = draw(st.integers(50, 200) if tier == "thorough" else st.integers(63, 70)) if big else draw(st.one_of(st.integers(0, 8), st.sampled_from([0, 1, 2])))
@@ -71,6 +71,10 @@ def operand_case(draw, tier="quick"):
     elif fam == "bytes":
         ka = kb = "bytes"
         ea = eb = V.byteses
+    elif fam == "strfmt":
+        # text % value: printf-style formatting is an arithmetic operator too (and formats anything - None included - if asked to)
+        ka, kb = "str", "fmtarg"
+        ea, eb = st.sampled_from(["%s pears", "<%r>", "%s", "n=%s;"]), st.one_of(st.integers(-3, 9), V.simple_strs, V.small_floats)
     elif fam == "str":
         ka = kb = "str"
         ea = eb = V.strs
@@ -125,6 +129,8 @@ def _ops_for(fam):
         return BIN[:3]
     if fam == "bytes":
         return [BIN[0]]
+    if fam == "strfmt":
+        return [BIN[5]]
     if fam == "str":
         return [BIN[0]]
     if fam == "strint":
@@ -157,6 +163,8 @@ def run_ops(case, ctx):
             ("self", lambda: op(va, va), a, a, False),             # the very same object on both sides
         ]
         for form, call, xs, ys, reflected in forms:
+            if form == "rscalar" and fam == "strfmt":
+                continue          # "text" % vector is str formatting of the whole vector (str.__mod__ never defers to the vector)
             if n == 0 and form in ("scalar", "rscalar", "vector", "list", "tuple", "rlist", "rtuple") and not typed:
                 # an untyped empty vector: only shape is asserted below
                 pass
